@@ -2,6 +2,7 @@ package main
 
 import (
 	"fmt"
+	"go/token"
 	"go/types"
 	"reflect"
 	"regexp"
@@ -449,12 +450,12 @@ func RuleJSON(r *Report, p *Program) {
 				rx[pat] = true
 			}
 			bound := int64(-1)
-			for _, pa := range walkSimple(p, mj, []string{"pin"}, nil) {
-				if v, ok := pa.State.Ints["pin"]; ok {
+			for _, pa := range walkSimple(p, mj, []string{"pin"}, typesHelpers(p)) {
+				if v, ok := pa.State.Ints["pin"]; ok && len(pa.Results) > 0 {
 					for _, iv := range v {
 						if iv.Lo > 0 && iv.Hi > bound && iv.Hi < 1<<31 {
-							// the largest PIN that is written out as digits
-							if strings.Contains(pa.Results[0].String(), "Sprintf") {
+							// the largest PIN that is written out as digits (the text depends on the value)
+							if strings.Contains(pa.Results[0].String(), "pin") {
 								bound = iv.Hi
 							}
 						}
@@ -471,6 +472,45 @@ func RuleJSON(r *Report, p *Program) {
 				if bound > 0 && rr.MatchString(fmt.Sprint(bound)) && !rr.MatchString(fmt.Sprint(bound+1)) && rr.MatchString("1") && rr.MatchString("") {
 					ok = true
 				}
+			}
+			if len(rx) == 0 && bound > 0 {
+				// a hand-written predicate: the reader bounds the length of the text with a constant
+				maxLen := int64(-1)
+				visitInstrs(uj, nil, 0, map[*ssa.Function]bool{}, func(in ssa.Instruction, env *cfEnv) {
+					bo, isB := in.(*ssa.BinOp)
+					if !isB {
+						return
+					}
+					isLenOfString := func(v ssa.Value) bool {
+						c, ok := v.(*ssa.Call)
+						if !ok {
+							return false
+						}
+						b, ok := c.Call.Value.(*ssa.Builtin)
+						return ok && b.Name() == "len" && isStringType(c.Call.Args[0].Type())
+					}
+					var k int64
+					var okc bool
+					op := bo.Op
+					switch {
+					case isLenOfString(bo.X):
+						k, okc = constInt(bo.Y)
+					case isLenOfString(bo.Y):
+						k, okc = constInt(bo.X)
+						op = flipOp(op)
+					}
+					if !okc {
+						return
+					}
+					switch op {
+					case token.GTR, token.LEQ: // len > k rejects / len <= k accepts
+						maxLen = k
+					case token.GEQ, token.LSS:
+						maxLen = k - 1
+					}
+				})
+				d = fmt.Sprintf("writer emits PINs up to %d; reader accepts texts of at most %d characters", bound, maxLen)
+				ok = maxLen == int64(len(fmt.Sprint(bound)))
 			}
 			r.Check(ok, "J2", "types.PIN:json-width", p.Pos(uj.Pos()), d, "PIN width disagreement: "+d)
 		}
